@@ -44,8 +44,8 @@ def value_uses_of_enum(prog: Program, enum_q: str, member: str):
                 par = pm.get(id(n))
                 if isinstance(par, ast.Compare):
                     continue
-                if isinstance(par, ast.Dict):
-                    continue  # name / description tables
+                if isinstance(par, ast.Dict) and any(n is k for k in par.keys):
+                    continue  # name / description tables keyed by the status
                 out.append((fi, n, par))
     return out
 
@@ -135,6 +135,44 @@ def gates(prog: Program, rep) -> None:
                       "Optimal is set only under residuum(curr_z) <= opt_tol of the restricted flow, or when the integration reported Converged", fi.loc(node))
         else:
             rep.fail("optimal-gate", fi.qualname, short(si.stmt), "VIOLATED: SolverStatus.Optimal is produced at a site that is not one of the gated termination tests", fi.loc(node))
+    # module-level status tables: `{IntegrationStatus.Converged: SolverStatus.Optimal, ..}` looked up with the integration's status
+    for mod in prog.modules.values():
+        if not prog.in_scope(mod):
+            continue
+        for st in mod.tree.body:
+            val = st.value if isinstance(st, (ast.Assign, ast.AnnAssign)) else None
+            tg = (st.targets[0] if isinstance(st, ast.Assign) and len(st.targets) == 1 else getattr(st, "target", None)) if val is not None else None
+            if not (isinstance(val, ast.Dict) and isinstance(tg, ast.Name)):
+                continue
+            for k_, v_ in zip(val.keys, val.values):
+                tgt = prog.resolve_expr_static(mod, v_.value) if isinstance(v_, ast.Attribute) else None
+                if not (isinstance(v_, ast.Attribute) and v_.attr == "Optimal" and tgt is not None and getattr(tgt, "qualname", None) == STATUS):
+                    continue
+                n += 1
+                loc = f"{mod.relpath}:{st.lineno}"
+                ktgt = prog.resolve_expr_static(mod, k_.value) if isinstance(k_, ast.Attribute) else None
+                key_ok = isinstance(k_, ast.Attribute) and k_.attr == "Converged" and getattr(ktgt, "qualname", "").endswith("IntegrationStatus")
+                uses_ok, n_uses = True, 0
+                for fi in prog.functions.values():
+                    if fi.module is not mod:
+                        continue
+                    pm = None
+                    for nd in own_nodes(fi.node):
+                        if isinstance(nd, ast.Name) and nd.id == tg.id and isinstance(nd.ctx, ast.Load):
+                            n_uses += 1
+                            pm = pm or parent_map(fi.node)
+                            par = pm.get(id(nd))
+                            arg = None
+                            if isinstance(par, ast.Attribute) and par.attr == "get" and isinstance(pm.get(id(par)), ast.Call) and len(pm[id(par)].args) == 1:
+                                arg = pm[id(par)].args[0]
+                            elif isinstance(par, ast.Subscript) and par.value is nd:
+                                arg = par.slice
+                            f2 = facts_for(fi)
+                            si = f2.stmt_of(nd)
+                            at = U(f2.resolved(si.stmt, arg)) if arg is not None and si is not None else ""
+                            uses_ok = uses_ok and at.endswith(".status") and "perform_integration(" in at
+                rep.check(key_ok and uses_ok and n_uses >= 1, "optimal-gate", f"{mod.name}.{tg.id}", U(k_) + ": Optimal",
+                          "a status table yields Optimal only for IntegrationStatus.Converged, and is only looked up with the status the integration reported", loc)
     rep.pin("sites producing SolverStatus.Optimal", n, 3)
     # the integration solver returns the state the gate looked at
     isv = prog.func("pygradflow.integration.integration_solver.IntegrationSolver.solve")
